@@ -33,7 +33,7 @@ TRUSTED = ["handler bodies are opaque: an exception raised inside a handler prop
 
 NAMES = ["Ev0", "Ev1", "Ev2", "Ev3", "Msg", "msg", "Évé", "E", "",
          # names a canonicalisation would identify with another one: case, NFD / full-width / look-alike forms, padding
-         "E\u0301ve\u0301", "\uff25", "\u0395", "ev0", "EV0", "Ev0 ", "Ev\u200b0", "\uff25\uff56\uff10", "MSG", "Ev1\x00", "mod.Ev0"]
+         "E\u0301ve\u0301", "\uff25", "\u0395", "ev0", "EV0", "Ev0 ", "Ev\u200b0", "\uff25\uff56\uff10", "MSG", "Ev1\t", "mod.Ev0"]
 
 
 class EqMeta(type):
